@@ -2,7 +2,7 @@
    Proofs/GraphP*.v. *)
 From Coq Require Import ZArith Bool List.
 Import ListNotations.
-From Verif Require Import Model.Val Model.Graph Proofs.GraphPBase Proofs.GraphPDfs Proofs.GraphPTopo.
+From Verif Require Import Model.Val Model.Graph Proofs.GraphPBase Proofs.GraphPDfs Proofs.GraphPTopo Proofs.GraphPDep.
 Open Scope Z_scope.
 
 (* every graph the constructor can build is well-formed; the constructor never raises *)
@@ -41,3 +41,25 @@ Print Assumptions C17_topo_error_means_cycle.
 Theorem C17_topo_complete : forall g, wf g -> acyclic g -> exists l, topological_sort g = Ok l.
 Proof. exact topo_acyclic_ok. Qed.
 Print Assumptions C17_topo_complete.
+
+(* are_dependent on a DAG: true exactly when one node is reachable from the other by at least one
+   edge (a node is not dependent on itself: equal depths answer False) *)
+Theorem C17_are_dependent : forall g, wf g -> acyclic g -> forall u v, In u (nodes g) -> In v (nodes g) ->
+  exists b, are_dependent g u v = Ok b /\ (b = true <-> reachp g u v \/ reachp g v u).
+Proof. exact are_dependent_spec. Qed.
+Print Assumptions C17_are_dependent.
+Theorem C17_are_dependent_cyclic : forall g, wf g -> cyclic g -> forall u v, In u (nodes g) ->
+  are_dependent g u v = Err E_RUNTIME.
+Proof. exact are_dependent_cyclic. Qed.
+Print Assumptions C17_are_dependent_cyclic.
+(* node depth: 1 on sources, one more than the deepest (max) / shallowest (min) parent otherwise *)
+Theorem C17_node_depth : forall g, wf g -> acyclic g -> forall mx n, In n (nodes g) ->
+  exists d, get_node_depth g n mx = Ok d /\
+    match parents_of g n with
+    | [] => d = 1
+    | p :: ps' => exists dp dps, get_node_depth g p mx = Ok dp /\
+                    Forall2 (fun q dq => get_node_depth g q mx = Ok dq) ps' dps /\
+                    d = fold_mm mx dp dps + 1
+    end.
+Proof. exact get_node_depth_spec. Qed.
+Print Assumptions C17_node_depth.
